@@ -497,6 +497,21 @@ func init() {
 	}
 	I["internal/bytealg.IndexByteString"] = I["strings.IndexByte"]
 	I["internal/bytealg.IndexByte"] = I["bytes.IndexByte"]
+	// CountString(s, c) / Count(b, c): number of bytes equal to c, as one sum term
+	countBytes := func(bs []*Term, c *Term) Value {
+		sum := MkBV(0, 64)
+		for _, b := range bs {
+			sum = BVBin(OpAdd, sum, Ite(Eq(b, c), MkBV(1, 64), MkBV(0, 64)))
+		}
+		return sum
+	}
+	I["internal/abi.NoEscape"] = func(t *Thread, fn *ssa.Function, a []Value) Value { return a[0] }
+	I["internal/bytealg.CountString"] = func(t *Thread, fn *ssa.Function, a []Value) Value {
+		return countBytes(a[0].(*StrVal).B, a[1].(*Term))
+	}
+	I["internal/bytealg.Count"] = func(t *Thread, fn *ssa.Function, a []Value) Value {
+		return countBytes(sliceBytes(a[0].(*SliceVal)), a[1].(*Term))
+	}
 	I["internal/bytealg.MakeNoZero"] = func(t *Thread, fn *ssa.Function, a []Value) Value {
 		n := t.concreteLen(a[0].(*Term), "MakeNoZero")
 		return &SliceVal{Arr: newArrayCell(types.Typ[types.Byte], n), Len: n, Cap: n}
